@@ -140,7 +140,7 @@ func ZZVerifC16Namespaces() {
 	h := s.authMiddleware(http.HandlerFunc(func(w http.ResponseWriter, r *http.Request) { called = true }))
 	var req *http.Request
 	index := ""
-	by := rt.IntRange("by", 0, 2)
+	by := rt.IntRange("by", 0, 3)
 	if by == 0 || by == 2 {
 		route := idxRoutes[rt.IntRange("route", 0, len(idxRoutes)-1)]
 		path, first := zzPath(route.pattern)
@@ -154,6 +154,15 @@ func ZZVerifC16Namespaces() {
 			req.Body = zzBody{strings.NewReader(`{"index_name":"nsA","k":1}`)}
 			rt.Reach("path-and-body")
 		}
+	} else if by == 3 {
+		// a body that repeats the key: the handlers' decoder (encoding/json) keeps the LAST occurrence, so that is
+		// the index acted upon; a token for the first one must not pass
+		index = "idx1"
+		ns = "nsA"
+		ver.policy.Namespaces = []string{ns}
+		req = &http.Request{Method: "POST", URL: &url.URL{Path: "/vector/actions/search"}, Header: http.Header{},
+			Body: zzBody{strings.NewReader(`{"index_name":"nsA","index_name":"idx1","k":1}`)}}
+		rt.Reach("repeated-key")
 	} else {
 		index = "idx1"
 		req = &http.Request{Method: "POST", URL: &url.URL{Path: "/vector/actions/search"}, Header: http.Header{},
